@@ -43,6 +43,9 @@ func DrawRuleSpec(s Chooser) Spec {
 	sp.N = 1 + s.Intn("ruletop", 4)
 	sp.Depth = 1 + s.Intn("ruledepth", 10)
 	sp.Seed = 1 + int64(s.Intn("ruleseed", 1<<30))
+	if sp.Kind == KindRulesGPOS && s.Intn("rulemix", 2) == 0 {
+		sp.Mix = 1
+	}
 	return sp
 }
 
@@ -513,6 +516,15 @@ func (sp Spec) rulesGPOS(p *prng, rg ruleGlyphs) (*Layout, error) {
 		}
 		return Lookup{Type: 1, Subtables: [][]byte{SinglePos2(glyphs, f, vs)}}
 	}
+	if sp.Mix == 1 {
+		// its own generator: the lookups drawn below are those of the same Spec without the mix
+		lks, err := sp.cursiveMix(&prng{x: uint64(sp.Seed)*0xD1342543DE82EF95 + 77}, rg)
+		if err != nil {
+			return nil, err
+		}
+		l.Lookups = append(l.Lookups, lks...)
+	}
+	nforced := len(l.Lookups)
 	nested := -1 // index of a SinglePos lookup for chained positioning, appended at the end
 	var pending []func(nestedIndex int) (Lookup, error)
 	for i := 0; i < ntop; i++ {
@@ -668,12 +680,116 @@ func (sp Spec) rulesGPOS(p *prng, rg ruleGlyphs) (*Layout, error) {
 			}
 		}
 	}
-	top := make([]int, ntop)
+	top := make([]int, nforced+ntop)
 	for i := range top {
 		top[i] = i
 	}
 	l.Features = []Feature{{Tag: sp.Feature, Lookups: top}}
 	return l, nil
+}
+
+// cursiveMix (Spec.Mix 1): lookups in which attachments with a ZERO offset, attachments with a
+// non-zero offset and plain placements meet:
+//   - a CursivePos over all letters in which a "flat" subset shares one cross-stream coordinate
+//     in every entry and exit anchor (a pair of flat letters attaches with offset zero; a pair with
+//     another letter does not), with or without the RightToLeft flag;
+//   - SinglePos (and sometimes PairPos) cross-stream placements on letters of both subsets: a
+//     cursive parent or mark base moved by a lookup that attaches nothing;
+//   - usually a MarkBase over the letters, so that a text can have a real attachment somewhere
+//     else (after a space) or nowhere at all.
+//
+// Whether any glyph of a buffer made an attachment is buffer-wide state of the positioning pass:
+// the whole text and a piece differ in it.
+func (sp Spec) cursiveMix(q *prng, rg ruleGlyphs) ([]Lookup, error) {
+	letters := rg.letters
+	flat := q.subset(letters, 3, 6)
+	isFlat := map[uint16]bool{}
+	for _, x := range flat {
+		isFlat[x] = true
+	}
+	y0 := (q.n(1201) - 300) & 0xFFFF
+	x0 := (q.n(1001) - 100) & 0xFFFF
+	flatBoth := q.n(3) == 0 // the main-direction coordinate is shared too (vertical text: X is cross-stream)
+	rnd := func() *Anchor {
+		return &Anchor{X: (q.n(1201) - 100) & 0xFFFF, Y: (q.n(1601) - 300) & 0xFFFF}
+	}
+	entry, exit := make([]*Anchor, len(letters)), make([]*Anchor, len(letters))
+	for i, g := range letters {
+		if isFlat[g] {
+			entry[i], exit[i] = &Anchor{X: (q.n(400)) & 0xFFFF, Y: y0}, &Anchor{X: (600 + q.n(600)) & 0xFFFF, Y: y0}
+			if flatBoth {
+				entry[i].X, exit[i].X = x0, x0
+			}
+			continue
+		}
+		if q.n(6) != 0 {
+			entry[i] = rnd()
+		}
+		if q.n(6) != 0 {
+			exit[i] = rnd()
+		}
+	}
+	cst, err := CursivePos(letters, entry, exit)
+	if err != nil {
+		return nil, err
+	}
+	cursive := Lookup{Type: 3, Subtables: [][]byte{cst}}
+	if q.n(2) == 0 {
+		cursive.Flag |= 0x0001 // RightToLeft
+	}
+	if q.n(3) == 0 {
+		cursive.Flag |= 0x0008 // IgnoreMarks: a mark between two letters does not break the chain
+	}
+	// placements on letters of both subsets
+	moved := append(q.subset(flat, 1, len(flat)), q.subset(letters, 1, 3)...)
+	f := []int{2, 2, 3, 1, 2}[q.n(5)]
+	vals := make([]Value, len(moved))
+	for i := range vals {
+		v := Value{}
+		if f&1 != 0 {
+			v.XPla = (q.n(301) - 150) & 0xFFFF
+		}
+		if f&2 != 0 {
+			v.YPla = (50 + q.n(300)) & 0xFFFF
+			if q.n(2) == 0 {
+				v.YPla = (-50 - q.n(300)) & 0xFFFF
+			}
+		}
+		vals[i] = v
+	}
+	place := Lookup{Type: 1, Subtables: [][]byte{SinglePos2(moved, f, vals)}}
+	out := []Lookup{place, cursive}
+	if q.n(2) == 0 {
+		out = []Lookup{cursive, place}
+	}
+	if q.n(2) == 0 {
+		var pairs []Pair
+		for i, n := 0, 2+q.n(6); i < n; i++ {
+			pairs = append(pairs, Pair{First: q.of(letters), Second: q.of(letters), V1: Value{YPla: (q.n(401) - 200) & 0xFFFF, XPla: (q.n(101) - 50) & 0xFFFF}})
+		}
+		pst, err := PairPos1(3, 0, pairs)
+		if err != nil {
+			return nil, err
+		}
+		out = append(out, Lookup{Type: 2, Subtables: [][]byte{pst}})
+	}
+	if q.n(3) != 0 && len(rg.marks) > 0 {
+		var marks []MarkRecord
+		for _, m := range rg.marks {
+			marks = append(marks, MarkRecord{Glyph: m, Class: 0, Anchor: *rnd()})
+		}
+		bases := q.subset(letters, 3, len(letters))
+		rows := make([][]*Anchor, len(bases))
+		for i := range rows {
+			rows[i] = []*Anchor{rnd()}
+		}
+		mst, err := MarkAttach(marks, 1, bases, rows)
+		if err != nil {
+			return nil, err
+		}
+		out = append(out, Lookup{Type: 4, Subtables: [][]byte{mst}})
+	}
+	return out, nil
 }
 
 // ruleLayouts builds the tables of a generated-rules Spec.
@@ -724,7 +840,8 @@ func (sp Spec) DrawText(s Chooser, maxLen int) []rune {
 			out = append(out, covered[s.Intn("textanyletter", len(covered))])
 		case k < 17 && len(out) > 0:
 			out = append(out, ruleMarks[s.Intn("textmark", len(ruleMarks))])
-		case k < 18:
+		case k < 18 || sp.Mix == 1 && k < 19:
+			// (the cursive mix wants short groups: attachments of one group must not reach the next)
 			out = append(out, []rune{' ', '-', ' '}[s.Intn("textsep", 3)])
 		default:
 			out = append(out, other[s.Intn("textother", len(other))])
